@@ -8,13 +8,17 @@ where a component can emit an event into the past / spin at a frozen clock
 so that harmless edits do not move it, while a new or relocated site shows up
 as an unclassified entry of the regenerated Coq list.
 
-C03 kinds: hash (builtin hash()), id (builtin id()), uuid, wallclock
+C03 kinds: shared_default (a parameter default that is a list/dict/set display or a constructor call: ONE object shared
+by every call, i.e. process-global state), module_state (module- or class-level binding of a mutable display or of a
+call other than the listed immutable/registry constructors), global_stmt (`global X` in a function), global_writer_call
+(a call of a function of the package that contains a `global` statement), hash (builtin hash()), id (builtin id()), uuid, wallclock
 (time.time/monotonic/perf_counter, datetime.now/utcnow/today), urandom
 (os.urandom, secrets.*), globalrandom (module-level random.* / numpy.random.*
 functions, i.e. the process-global RNG), setiter (iteration / list() / tuple() /
 next(iter()) / .pop() / min / max / random.choice over an attribute or local whose
 initialiser or annotation is a set).
-C07 kinds: stale_now (in a generator: a name bound from `.now` before a `yield`
+C07 kinds: wait_loop (every while loop of a generator that yields: what it yields per round decides whether it can spin),
+stale_now (in a generator: a name bound from `.now` before a `yield`
 and used in Event(time=...) after it, or an Event built before a yield and
 emitted after it), spin (while ...: yield 0 / 0.0 / self-returning zero delay),
 neg_time (Event(time=<now> - ...)).
@@ -60,8 +64,35 @@ def is_set_ann(a):
 
 
 class Collector(ast.NodeVisitor):
+    GLOBAL_WRITERS: set = set()       # names of package functions that contain a `global` statement (filled by extract)
+    IMMUTABLE_CALLS = ("float", "int", "str", "bool", "tuple", "frozenset", "bytes", "field", "logging.getLogger", "TypeVar",
+                       "contextvars.ContextVar", "ContextVar", "re.compile", "auto", "namedtuple", "NewType", "Instant", "Duration",
+                       "Instant.from_seconds", "Duration.from_seconds", "object", "property", "staticmethod", "classmethod", "Enum")
+
+    def mutable_value(self, v):
+        if isinstance(v, (ast.List, ast.Dict, ast.Set, ast.ListComp, ast.DictComp, ast.SetComp)):
+            return True
+        if isinstance(v, ast.Call):
+            nm = dotted(v.func) or ""
+            return nm not in self.IMMUTABLE_CALLS and nm.split(".")[-1] not in ("getLogger", "TypeVar", "field")
+        return False
+
+    def scan_bindings(self, body, where):
+        for st in body:
+            v = st.value if isinstance(st, (ast.Assign, ast.AnnAssign)) else None
+            if v is None or not self.mutable_value(v):
+                continue
+            nm = ast.unparse(st.targets[0]) if isinstance(st, ast.Assign) else ast.unparse(st.target)
+            if nm == "__all__" or nm.startswith("__") or (nm.isupper() and isinstance(v, (ast.List, ast.Dict, ast.Set)) is False and False):
+                continue
+            if isinstance(st, ast.AnnAssign) and "ClassVar" not in ast.unparse(st.annotation) and where != "<module>" and self.in_dataclass:
+                continue       # dataclass field default (rejected by dataclasses when mutable)
+            self.stack.append(where) if where != "<module>" and not self.stack else None
+            self.add("module_state", f"{nm} = {ast.unparse(v)[:50]}")
+
     def __init__(self, rel):
         self.rel = rel
+        self.in_dataclass = False
         self.stack = []
         self.sites = []
         self.counts = {}
@@ -99,7 +130,21 @@ class Collector(ast.NodeVisitor):
                         self.set_attrs.add(t.attr)
 
     # -- traversal
+    def visit_Module(self, node):
+        self.scan_bindings(node.body, "<module>")
+        self.generic_visit(node)
+
+    def visit_Global(self, node):
+        self.add("global_stmt", "global " + ", ".join(node.names))
+
     def visit_ClassDef(self, node):
+        self.in_dataclass = any("dataclass" in ast.unparse(d) for d in node.decorator_list)
+        is_enum = any("Enum" in ast.unparse(b) for b in node.bases)
+        self.stack.append(node.name)
+        if not is_enum:
+            self.scan_bindings(node.body, node.name)
+        self.stack.pop()
+        self.in_dataclass = False
         # methods of this class that build an event stamped with the current clock and return it
         self.factories = getattr(self, "factories", [])
         facs = set()
@@ -119,6 +164,9 @@ class Collector(ast.NodeVisitor):
 
     def visit_FunctionDef(self, node):
         self.stack.append(node.name)
+        for d in node.args.defaults + [x for x in node.args.kw_defaults if x is not None]:
+            if self.mutable_value(d):
+                self.add("shared_default", ast.unparse(d)[:60])
         self.set_locals.append(set())
         for n in ast.walk(node):
             if isinstance(n, ast.Assign) and is_set_expr(n.value):
@@ -150,6 +198,8 @@ class Collector(ast.NodeVisitor):
         f = node.func
         f._is_callee = True
         name = dotted(f)
+        if (dotted(f) or "").split(".")[-1] in self.GLOBAL_WRITERS:
+            self.add("global_writer_call", dotted(f))
         if isinstance(f, ast.Name):
             if f.id == "hash" and self.stack[-1:] != ["__hash__"]:
                 self.add("hash", ast.unparse(node)[:60])
@@ -239,13 +289,16 @@ class Collector(ast.NodeVisitor):
                     if any(y > par.end_lineno for y in yields):
                         self.add("stale_now", f"event from self.{n.func.attr}() kept before a later yield")
         for n in ast.walk(fn):
-            if isinstance(n, ast.While):
+            if isinstance(n, ast.While) and self.owner(fn, n):
                 for b in n.body:
                     for y in ast.walk(b):
                         if isinstance(y, ast.Yield) and y.value is not None:
                             v = y.value.elts[0] if isinstance(y.value, ast.Tuple) and y.value.elts else y.value
                             if isinstance(v, ast.Constant) and v.value in (0, 0.0):
                                 self.add("spin", "while " + ast.unparse(n.test)[:50] + ": yield 0")
+                            else:
+                                # every other loop that yields: how long each round waits decides whether it can spin
+                                self.add("wait_loop", "while " + ast.unparse(n.test)[:50] + ": yield " + ast.unparse(v)[:50])
 
     def scan_closure_events(self, fn):
         """Events stamped with `.now` in `fn`, kept in a local, and emitted by a nested
@@ -357,6 +410,15 @@ def extract(repo=None):
     root = os.path.join(repo, "happysimulator")
     sites = []
     nfiles = 0
+    writers = set()
+    for dp, dns, fns in os.walk(root):
+        for fn in fns:
+            if fn.endswith(".py"):
+                t = ast.parse(open(os.path.join(dp, fn), encoding="utf-8").read())
+                for f in ast.walk(t):
+                    if isinstance(f, (ast.FunctionDef, ast.AsyncFunctionDef)) and any(isinstance(x, ast.Global) for x in ast.walk(f)):
+                        writers.add(f.name)
+    Collector.GLOBAL_WRITERS = writers
     for dp, dns, fns in os.walk(root):
         dns.sort()
         for fn in sorted(fns):
@@ -373,8 +435,9 @@ def extract(repo=None):
     return sites, nfiles
 
 
-C03_KINDS = ("hash", "id", "uuid", "wallclock", "wallclock_ref", "urandom", "globalrandom", "setiter")
-C07_KINDS = ("stale_now", "spin", "neg_time", "event_time")
+C03_KINDS = ("hash", "id", "uuid", "wallclock", "wallclock_ref", "urandom", "globalrandom", "setiter",
+             "shared_default", "module_state", "global_stmt", "global_writer_call")
+C07_KINDS = ("stale_now", "spin", "neg_time", "event_time", "wait_loop")
 
 
 def coq_string(s):
